@@ -206,9 +206,23 @@ def validateHandler : Handler Unit where
       | _, _, _, _, _, _, _, _, _ => (s, ["obs bad-op"])
     | _ => (s, ["obs bad-op"])
 
+def grpcHandler : Handler Unit where
+  init := ()
+  onOp := fun s toks =>
+    match toks with
+    | "grpc" :: t =>
+      match kvNat t "code", (kv t "ri").bind optNat with
+      | some code, some ri =>
+        match grpcProcess code ri with
+        | none => (s, ["obs out nil=1 perm=0 th=-"])
+        | some e => (s, [s!"obs out nil=0 perm={b01 e.isPermanent} th={showOptNat e.throttleDelay}"])
+      | _, _ => (s, ["obs bad-op"])
+    | _ => (s, ["obs bad-op"])
+
 end OtelVerif.Drivers.C05
 
 def main : IO UInt32 :=
   runMulti [("c05-retry", run OtelVerif.Drivers.C05.retryHandler),
             ("c05-err", run OtelVerif.Drivers.C05.errHandler),
-            ("c05-validate", run OtelVerif.Drivers.C05.validateHandler)]
+            ("c05-validate", run OtelVerif.Drivers.C05.validateHandler),
+            ("c05-grpc", run OtelVerif.Drivers.C05.grpcHandler)]
